@@ -59,6 +59,7 @@ def shards(tier: str):
                 out.append({"part": "patterns", "gen": gen, "n": 6, "k": k})
             for k in range(8):
                 out.append({"part": "e2e", "gen": gen, "n": 120, "k": k})
+            out.append({"part": "e2e-special-header", "gen": gen})
     else:
         out.append({"part": "crc-12"})
         for b0 in range(256):
@@ -70,13 +71,50 @@ def shards(tier: str):
                 out.append({"part": "patterns", "gen": gen, "n": 12, "k": k})
             for k in range(32):
                 out.append({"part": "e2e", "gen": gen, "n": 600, "k": k})
+            out.append({"part": "e2e-special-header", "gen": gen})
+    return out
+
+
+_KNOWN_TYPES = {4: {0x1F, 0x2A, 0x2B, 0x2C, 0x2D, 0x36, 0x37}, 5: {0x1F, 0xC0}}
+
+
+def special_header_frames(gen: int, want: int = 6):
+    """Well-formed frames (unknown type, delivered as 'unsupported') whose CRC register is exactly 0x0000 / 0xFFFF
+    after the header bytes, i.e. at the header / payload boundary, or whose final check value is 0x0000 / 0xFFFF.
+    Found by search over from-address, packet id, type and length (one header in 65536 qualifies)."""
+    out, found = [], {"b0": 0, "bf": 0}
+    for frm in (0x80, 0x90, 0x81, 0xA0, 0x00, 0x55):
+        for mtype in range(256):
+            if mtype in _KNOWN_TYPES[gen]:
+                continue
+            for pid in range(256):
+                for ln in range(1, 6):
+                    hdr = bytes([0xB0, frm, pid, mtype, 0, ln])
+                    reg = refproto.crc16_modbus_int(hdr)
+                    key = "b0" if reg == 0 else ("bf" if reg == 0xFFFF else None)
+                    if key and found[key] < want:
+                        found[key] += 1
+                        out.append((key, refproto.frame(gen, 0xB0, frm, pid, mtype, bytes((pid + k) & 0xFF for k in range(ln)))))
+            if all(v >= want for v in found.values()):
+                return out
     return out
 
 
 def floors(tier: str):
     return {"crc:len1-2": 65792, "pattern:single": 1000, "pattern:double": 1000, "pattern:burst": 1000,
             "e2e:model-error": 100, "e2e:probe-delivered": 100, "e2e:special-check-value:0": 20, "e2e:special-check-value:3": 20,
-            "crc:check-value-0000": 100}
+            "crc:check-value-0000": 100, "e2e:special-header:b0": 8, "e2e:special-header:bf": 8}
+
+
+def gens_first_message(gen: int):
+    """One fixed, valid console->client message (a version message) for filler / probe frames."""
+    import pyairtouch.at4.comms.x1F_ext as e4
+    import pyairtouch.at4.comms.x1FFF30_console_ver as cv4
+    import pyairtouch.at5.comms.x1F_ext as e5
+    import pyairtouch.at5.comms.x1FFF30_console_ver as cv5
+    if gen == 4:
+        return e4.ExtendedMessage(cv4.ConsoleVersionMessage(update_available=False, versions=["1.2.3"]))
+    return e5.ExtendedMessage(cv5.ConsoleVersionMessage(update_available=False, versions=["1.2.3"]))
 
 
 def _crc_violation(b: bytes, got, exp):
@@ -381,6 +419,16 @@ def run_shard(spec, seed: int, tier: str):
             strat = st.tuples(gens.message(gen, kinds=[kind]), st.lists(st.integers(0, 1 << 16), min_size=64, max_size=7000))
             drive(stats, lambda s: given_test(strat, lambda c: stats.guard(body, c), s, max(1, spec["n"] // 3), shrink=False),
                   seed + hash(kind) % 1000)
+    elif part == "e2e-special-header":
+        gen = spec["gen"]
+        plain = console_frames(gen, [gens_first_message(gen)], pid0=7)
+        probes = console_frames(gen, [gens_first_message(gen)], pid0=200)
+        for key, fr in special_header_frames(gen):
+            s0, _ = covered_span(gen, fr)
+            nbits = (len(fr) - s0) * 8
+            for bits in ([], [nbits - 17], [5], [nbits - 1]):     # intact; a data bit; a header bit; a check bit
+                stats.guard(check_e2e, gen, plain + [fr] + plain, 1, bits, probes, stats)
+            stats.classes[f"e2e:special-header:{key}"] += 1
     elif part == "e2e":
         gen = spec["gen"]
 
